@@ -917,7 +917,7 @@ TEMP_KINDS = ("default", "tempfs", "mem", "osdir")
 
 class ArchStore(DiskStore):
     """A write-mode ZipFS / TarFS: target given as path / BytesIO / real file object x scratch temp_fs variants."""
-    def __init__(self, zipped, target_kind, temp_kind):
+    def __init__(self, zipped, target_kind, temp_kind, extra=None):
         DiskStore.__init__(self)
         from fs.zipfs import ZipFS
         from fs.tarfs import TarFS
@@ -943,7 +943,12 @@ class ArchStore(DiskStore):
         elif temp_kind == "osdir":
             os.mkdir(os.path.join(self.work, "scratch"))
             kw["temp_fs"] = OSFS(os.path.join(self.work, "scratch"))
-        self.obj = (ZipFS if zipped else TarFS)(file, write=True, **kw)
+        kw.update(extra or {})
+        try:
+            self.obj = (ZipFS if zipped else TarFS)(file, write=True, **kw)
+        except Exception:
+            self.cleanup()
+            raise
         self.fs = self.obj.delegate_fs()
         if self.fs.hassyspath("/"):
             self.scratch = self.fs.getsyspath("/")
@@ -1028,12 +1033,19 @@ class ArchStore(DiskStore):
 
 
 class TempStore(DiskStore):
-    def __init__(self, auto_clean):
+    def __init__(self, auto_clean=True, **kw):
         DiskStore.__init__(self)
         from fs.tempfs import TempFS
-        self.obj = TempFS(temp_dir=self.work, auto_clean=auto_clean)
+        kw.setdefault("temp_dir", self.work)
+        try:
+            self.obj = TempFS(auto_clean=auto_clean, **kw)
+        except Exception:
+            self.cleanup()
+            raise
         self.fs = self.obj
         self.dir = self.obj.getsyspath("/")
+        if not os.path.realpath(self.dir).startswith(os.path.realpath(self.work)):
+            self.scratch = self.dir          # temp_dir=None: the directory lives in the system's temp location
         populate(self.obj)
 
 
@@ -1283,6 +1295,175 @@ def failed_close_probe(label, make, rnd, data_names, variants, results, bad, sta
                     gc.collect()
 
 
+# ---- constructor keywords (by reflection) x "finalises exactly once"
+
+FINAL_FIRST = ("close", "with")
+FINAL_REPEATS = (("close",), ("close", "close"), ("__del__",), ("gc",), ("close", "__del__", "gc"))
+CANARY = "not-yours.txt"
+
+
+def keyword_domain(family, p, unvaried):
+    """Values for one constructor keyword, chosen from its name and its default (the keywords themselves come from
+    inspect.signature of the constructor); symbolic values are resolved by the store classes."""
+    import zipfile
+    if isinstance(p.default, bool):
+        return [p.default, not p.default]
+    if p.name == "identifier":
+        return [p.default, "verif", "", "a/b"]
+    if p.name == "temp_dir":
+        return [None, "<work>"]
+    if p.name == "file":
+        return list(TARGET_KINDS)
+    if p.name == "temp_fs":
+        return list(TEMP_KINDS)
+    if p.name == "encoding":
+        return [p.default, "latin-1"]
+    if p.name == "compression":
+        if family == "zip":
+            return [p.default, zipfile.ZIP_STORED]
+        out = [p.default, "gz"]
+        for mod, name in (("bz2", "bz2"), ("lzma", "xz")):
+            try:
+                __import__(mod)
+                out.append(name)
+            except ImportError:
+                pass
+        return out
+    unvaried.append("%s.%s" % (family, p.name))
+    return [p.default]
+
+
+def keyword_constructions(thorough, rnd):
+    """[(label, make, family)] for every combination of constructor keyword values of the filesystems whose
+    close() releases something outside the object: TempFS (its directory), write-mode ZipFS / TarFS (the archive is
+    written, the scratch filesystem closed and its directory removed)."""
+    import itertools
+    from fs.tempfs import TempFS
+    from fs.zipfs import WriteZipFS
+    from fs.tarfs import WriteTarFS
+    out, unvaried, keywords = [], [], {}
+    for family, cls in (("temp", TempFS), ("zip", WriteZipFS), ("tar", WriteTarFS)):
+        params = [p for p in inspect.signature(cls.__init__).parameters.values()
+                  if p.name != "self" and p.kind not in (p.VAR_POSITIONAL, p.VAR_KEYWORD)]
+        keywords[cls.__name__] = [p.name for p in params]
+        domains = [keyword_domain(family, p, unvaried) for p in params]
+        for combo in itertools.product(*domains):
+            kw = dict(zip([p.name for p in params], combo))
+            label = "%s(%s)" % (cls.__name__, ", ".join("%s=%r" % (p.name, kw[p.name]) for p in params))
+            if family == "temp":
+                def make(kw=kw):
+                    k = dict(kw)
+                    if k.get("temp_dir") == "<work>":
+                        del k["temp_dir"]           # TempStore's default: its private work directory
+                    return TempStore(**k)
+            else:
+                def make(kw=kw, family=family):
+                    k = dict(kw)
+                    return ArchStore(family == "zip", k.pop("file"), k.pop("temp_fs"), extra=k)
+            out.append((label, make, "tempfs" if family == "temp" else "write-archive"))
+    return out, keywords, unvaried
+
+
+def exactly_once_probe(label, make, family, scenarios, bad, stats):
+    """first finalisation (close / with-block), then repeats (close, __del__, garbage collection): no repeat may
+    raise, and what the first one released is released exactly once - every directory it removed is re-created
+    (with a canary file in it) before the repeats and must survive them, as must every other byte of the storage."""
+    for first, repeats in scenarios:
+        with _Unraisable() as un0:
+            try:
+                st = make()
+            except Exception as e:  # noqa
+                st = None
+                failure = type(e).__name__
+                e = None
+                gc.collect()          # the half-built object goes away here, not at some later point of the run
+        if st is None:
+            stats["constructor_failures"].add("%s: %s%s" % (label, failure, "" if not un0.seen else
+                                                            " (then its finaliser raised %s)" % un0.seen[0]))
+            return
+        obj = st.obj
+        how = "%s, then %s" % (first, "+".join(repeats))
+
+        def note(why, method, verdict="", changed=False):
+            bad.append((why, dict(construction=label, how=how, method=method, verdict=str(verdict), changed=changed)))
+        try:
+            stats["scenarios"] += 1
+            if family == "tempfs":
+                auto = bool(obj._auto_clean)
+                dirs = [st.dir]
+            else:
+                auto = st.scratch_removed
+                dirs = [st.scratch] if st.scratch is not None else []
+            try:
+                if first == "close":
+                    obj.close()
+                else:
+                    with obj:
+                        pass
+            except Exception as e:  # noqa
+                note("the first close() raised", "close", type(e).__name__)
+                continue
+
+            def plant():
+                planted = []
+                for d in dirs:
+                    if not os.path.isdir(d):
+                        os.mkdir(d)
+                    c = os.path.join(d, CANARY)
+                    with open(c, "w") as fh:
+                        fh.write("created after the filesystem was closed")
+                    planted.append(c)
+                return planted
+            for d in dirs:
+                if os.path.exists(d) != (not auto):
+                    note("close() removes the directory iff the constructor keywords say so: violated", "close",
+                         "exists=%s" % os.path.exists(d))
+            if family == "write-archive" and not st.archive_ok():
+                note("close() did not write one complete readable archive", "close")
+            canaries = plant()
+            steps = list(repeats)
+            if family == "tempfs" and not auto and "gc" not in repeats:
+                # clean() is the documented release of a TempFS(auto_clean=False): it happens once, too
+                steps += ["release", "clean", "close", "__del__"]
+            snap = st.snapshot()
+            for step in steps:
+                stats["repeats"] += 1
+                with _Unraisable() as un:
+                    try:
+                        if step == "close":
+                            obj.close()
+                        elif step == "__del__":
+                            obj.__del__()
+                        elif step in ("clean", "release"):
+                            obj.clean()
+                        else:
+                            st.obj = None
+                            st.fs = None
+                            obj = None
+                            gc.collect()
+                    except Exception as e:  # noqa
+                        note("a repeated close() / finaliser raised", step, type(e).__name__)
+                        break
+                if un.seen:
+                    note("a repeated close() / finaliser raised", step, un.seen)
+                    break
+                if step == "release":
+                    if any(os.path.exists(d) for d in dirs):
+                        note("clean() did not remove the directory", "clean")
+                        break
+                    canaries = plant()
+                    snap = st.snapshot()
+                elif st.snapshot() != snap or not all(os.path.exists(c) for c in canaries):
+                    note("a repeated close() / finaliser released the resource again", step,
+                         "canary survives: %s" % [os.path.exists(c) for c in canaries], changed=True)
+                    break
+        finally:
+            with _Unraisable():
+                obj = None
+                st.cleanup()
+                gc.collect()
+
+
 def run_c18(report):
     rnd = random.Random(report.seed + 18)
     thorough = report.tier == "thorough"
@@ -1426,6 +1607,20 @@ def run_c18(report):
                 st.cleanup()
         if family == "write-archive":
             failed_close_probe(label, make, rnd, data_names, variants if thorough else (0, 3), results, bad, fstats)
+    # every constructor keyword combination x every way of finalising more than once
+    kstats = dict(scenarios=0, repeats=0, constructor_failures=set())
+    kcons, kwords, unvaried = keyword_constructions(thorough, rnd)
+    every = [(f, r) for f in FINAL_FIRST for r in FINAL_REPEATS]
+    shift = rnd.randrange(len(every))
+    for ci, (label, make, family) in enumerate(kcons):
+        if thorough:
+            scen = every
+        else:
+            # quick tier: every keyword combination with some of the ten orders (4 for TempFS, 1 for an archive),
+            # rotating so that every order is used with many combinations
+            k = 4 if family == "tempfs" else 1
+            scen = [every[(shift + ci * k + j) % len(every)] for j in range(k)]
+        exactly_once_probe(label, make, family, scen, bad, kstats)
     fin = finalisers_probe()
     for f in fin:
         if not f["ok"]:
@@ -1473,6 +1668,11 @@ def run_c18(report):
                concrete_callables_swept=len(swept), class_specific_callables=sorted(specific_names),
                disk_constructions=len(disk), disk_post_close_calls=disk_calls,
                failed_close_scenarios=fstats["scenarios"], failed_close_post_calls=fstats["calls"],
+               constructor_keywords_by_reflection=kwords, constructor_keyword_combinations=len(kcons),
+               constructor_keywords_not_varied=sorted(unvaried),
+               constructor_failures=sorted(kstats["constructor_failures"]),
+               finalise_exactly_once_scenarios=kstats["scenarios"], finalise_exactly_once_repeats=kstats["repeats"],
+               finalisation_orders=["%s, then %s" % (f, "+".join(r)) for f, r in every],
                pending_findings_seen=sorted(pending_seen),
                traces_validated_against_impl=len(results) - len(bad))
     return report.finish(proof, cov, assumptions=[
